@@ -61,6 +61,18 @@ def gen_inputs(ctx):
                         continue
                     out.append(("Addr", {"kind": kind, "net": net, "K": K, "via": "pubkey", "compressed": comp},
                                 ("pubkey", kind, net, comp, kc)))
+    # all five kinds for the ROOT of a wallet imported from an extended private key of each private flavour (a parsed
+    # private node keeps 00 || k as its raw key), and for a child of it
+    from .. import refwallet as W
+    tabx = R.Table()
+    for t in sorted(W.VERSIONS):
+        if t[0] != "prv" or (q and t[2] == "bip49"):
+            continue
+        rn = W.master(tabx, bytes(rng.randrange(256) for _ in range(32)), t[1])
+        xs = W.ser(tabx, rn, W.VERSIONS[t], True)
+        for kind in KINDS:
+            out.append(("Addr", {"kind": kind, "net": t[1], "K": B(rn.K), "via": "imported-root", "compressed": True, "xprv": [ord(c) for c in xs]},
+                        ("imported-root", kind, t[1], t[2])))
     # request sequences on one key object (both orders of compressed / uncompressed, both kinds)
     for pt, kc in keys[:6 if q else 40]:
         K = B(R.sec(pt, True))
@@ -84,6 +96,9 @@ def gen_inputs(ctx):
     for n in lens:
         msg = bytes(rng.randrange(256) for _ in range(n))
         out.append(("Hash", B(msg), ("hash", n % 64 in (55, 56, 63, 0), n // 64)))
+    # long inputs at and around multiples of 64 KiB (chunked hashing)
+    for n in ((65536, 131072) if q else (65535, 65536, 65537, 131071, 131072, 131073, 196608)):
+        out.append(("Hash", B(bytes((i * 7 + n) % 256 for i in range(n))), ("hash-long", n % 65536 == 0)))
     for msg in (b"", b"a", b"abc", b"message digest", b"a" * 64, b"\x00" * 119, b"\xff" * 120):
         out.append(("Hash", B(msg), ("hash-fixed", len(msg))))
     return out
@@ -92,7 +107,7 @@ def gen_inputs(ctx):
 def describe(ev):
     i = ev["inp"]
     if ev["act"] == "Addr":
-        return "%s %s address of %s.. via %s%s" % (i["net"], i["kind"], bytes(i["K"]).hex()[:14], i["via"],
+        return "%s %s address of %s.. via %s%s" % (i["net"], i["kind"], bytes(i["K"]).hex()[:14], i["via"] + (" " + core.untext(i["xprv"])[:4] if i.get("xprv") else ""),
                                                     "" if i["compressed"] else " (uncompressed)")
     if ev["act"] == "AddrSeq":
         return "%s addresses %s from ONE PublicKey object" % (i["net"], [(s["kind"], "c" if s["compressed"] else "u") for s in i["steps"]])
